@@ -168,7 +168,7 @@ def solo(prog, k, base_seed):
 
 def _job(args):
     seed, i, schedule = args
-    prog = btgen.prog_by_family(seed, i, ["lookback", "lookback", "flat", "nested", "closeroll"])
+    prog = btgen.prog_by_family(seed, i, ["lookback", "lookback", "flat", "nested", "closeroll", "replay"])
     try:
         ses = play(prog, schedule, 1000 + i)
         ses["solo"] = solo(prog, ses["k"], 1000 + i)
@@ -216,7 +216,7 @@ def other_seed_results(seed, i, schedule, hashseed):
     """The same session in a fresh interpreter with another hash seed."""
     env = dict(os.environ, PYTHONHASHSEED=str(hashseed))
     code = ("import sys, json; sys.path.insert(0, %r); import check_c11 as c; import btgen; "
-            "prog = btgen.prog_by_family(%d, %d, ['lookback','lookback','flat','nested','closeroll']); "
+            "prog = btgen.prog_by_family(%d, %d, ['lookback','lookback','flat','nested','closeroll','replay']); "
             "print('RES', json.dumps(c.solo(prog, %d, %d)))" % (os.path.dirname(os.path.abspath(__file__)), seed, i, max(b for _, b in schedule), 1000 + i))
     p = subprocess.run([sys.executable, "-c", code], env=env, capture_output=True, text=True, timeout=300)
     for line in p.stdout.splitlines():
